@@ -5,7 +5,8 @@
     C01/Model.v on the history [ops] (mutators and queries with arbitrary arguments) started from
     the empty table; [spec_run] are the outputs of the strictly sorted association list of
     C01/Spec.v.  [Ok] means: neither a panic nor fuel exhaustion. *)
-From Algo.C01 Require Import Model Spec.
+From Algo.C01 Require Import Model Spec Proofs.
+From Coq Require Import Permutation.
 Open Scope Z_scope.
 
 (** The property at full strength: for every comparator that is a total (pre)order, every
@@ -16,6 +17,34 @@ Definition C01_full : Prop :=
   forall (i : impl) (ops : list (op K V)),
     forallb abstract_op ops = true ->
     run cmp eqv i ops = map Ok (spec_run cmp eqv ops).
+
+(** BST: the property at full strength — every history of Put / Delete / DeleteMin / DeleteMax /
+    DeleteAll and of all abstract queries (absent keys, inverted ranges, negative ranks included). *)
+Theorem C01_refines_bst :
+  forall (K V : Type) (cmp : K -> K -> Z) (eqv : V -> V -> bool), TotalOrder cmp ->
+  forall ops : list (op K V),
+    forallb abstract_op ops = true ->
+    run cmp eqv BST ops = map Ok (spec_run cmp eqv ops).
+Proof. intros K V cmp eqv TO ops. exact (bst_run_ok cmp eqv TO ops). Qed.
+
+(** FirstMatch is relational: the property does not fix which matching pair an abstract map
+    returns (the code returns the first in pre-order; the correspondence checks that choice). *)
+Theorem C01_firstmatch_bst :
+  forall (K V : Type) (cmp : K -> K -> Z), TotalOrder cmp ->
+  forall (h : list (mut K V)) (p : K -> V -> bool),
+  exists t, build cmp BST h = Ok t /\
+    match first_match p t with
+    | Some e => In e (s_build cmp h) /\ holds p e = true
+    | None => forall e, In e (s_build cmp h) -> holds p e = false
+    end.
+Proof. intros K V cmp TO h p. exact (bst_firstmatch cmp TO h p). Qed.
+
+(** The six shape-dependent traversal orders enumerate exactly the entries of the abstract map. *)
+Theorem C01_traversal_bst :
+  forall (K V : Type) (cmp : K -> K -> Z), TotalOrder cmp ->
+  forall (h : list (mut K V)) (o : order), o <> OtherOrder ->
+  exists t, build cmp BST h = Ok t /\ Permutation (trav_list o t) (s_build cmp h).
+Proof. intros K V cmp TO h o. exact (bst_traversal cmp TO h o). Qed.
 
 (** Non-vacuity: a 7-key history with a double rotation (AVL), colour flips (red-black), a
     successor-replacing delete, absent keys, on the three implementations and two comparators. *)
@@ -33,3 +62,7 @@ Proof.
   intros ops i Hi. simpl in Hi.
   destruct Hi as [<- | [<- | [<- | []]]]; vm_compute; repeat split; reflexivity.
 Qed.
+
+Print Assumptions C01_refines_bst.
+Print Assumptions C01_firstmatch_bst.
+Print Assumptions C01_traversal_bst.
